@@ -77,6 +77,13 @@ def documents(pm: ProgramModel, mb: ModelBuilder) -> dict[str, list[tuple[str, A
     docs["FeatureIDEReader"].append(("written/all-operators", written("FeatureIDEWriter", m), None))
     ref9 = c09.ref_model(mb)
     docs["GlencoeReader"].append(("third-party/ids", json.dumps(c09.glencoe_doc(ref9)), ref9))
+    # a group feature all of whose children are flagged mandatory (Glencoe allows mandatory children in groups)
+    gd = c09.glencoe_doc(ref9)
+    gid = next(k for k, v in gd["features"].items() if v["name"] == "Catalog")
+    kid_ids = {k["id"] for k in _find(gd["tree"], gid).get("children", [])}
+    for k in kid_ids:
+        gd["features"][k]["optional"] = False
+    docs["GlencoeReader"].append(("third-party/group-of-mandatory-children", json.dumps(gd), None))
     m = c07.fide_rich(mb)
     docs["FeatureIDEReader"].append(("written/rich", written("FeatureIDEWriter", m), m))
     docs["FeatureIDEReader"].append(("third-party/explicit-false+graphics",
@@ -97,6 +104,16 @@ def documents(pm: ProgramModel, mb: ModelBuilder) -> dict[str, list[tuple[str, A
     docs["XMLReader"].append(("third-party/extras+cardinality-last",
                               c09.fama_doc(ref9, extra=True, card_after=True).encode("utf8"), ref9))
     return docs
+
+
+def _find(tree: dict[str, Any], fid: str) -> dict[str, Any]:
+    if tree["id"] == fid:
+        return tree
+    for k in tree.get("children", []):
+        r = _find(k, fid)
+        if r:
+            return r
+    return {}
 
 
 def check(pm: ProgramModel, ctx: Ctx) -> None:
